@@ -416,6 +416,69 @@ func diskStop(tr *tracer.T, rng *rand.Rand) {
 	}
 }
 
+// stopWriter raises the stop signal once n bytes of the snapshot have been written
+type stopWriter struct {
+	buf   bytes.Buffer
+	left  int
+	stopc chan struct{}
+	done  bool
+}
+
+func (s *stopWriter) Write(p []byte) (int, error) {
+	n, err := s.buf.Write(p)
+	s.left -= n
+	if s.left <= 0 && !s.done {
+		close(s.stopc)
+		s.done = true
+	}
+	return n, err
+}
+
+// diskStopSave : C08 interrupted SAVE. The stop signal fires after n bytes of SaveSnapshot's output. Either the save
+// reports that it was stopped (the stream is then discarded, as dragonboat does), or it reports success - then what it
+// wrote is installed on another replica and has to be the complete, faithful snapshot.
+func diskStopSave(tr *tracer.T, rng *rand.Rand) {
+	sc := makeScenario(rng)
+	n := len(sc.log)
+	for _, srcType := range []fsm.SnapshotRecoveryType{fsm.RecoveryTypeSnapshot, fsm.RecoveryTypeCheckpoint} {
+		full := len(snapshotOf(sc.log, sc.log[n-1].I, srcType))
+		for _, cut := range []int{0, 1, 9, 64, full / 4, full / 2, full - 64, full - 9, full - 1, full} {
+			if cut < 0 {
+				continue
+			}
+			tr.Emit(map[string]any{"ev": "reset"})
+			src := newRep(2, srcType)
+			src.update(tr, sc.log)
+			ctx, err := src.f.PrepareSnapshot()
+			if err != nil {
+				die("prepare: %v", err)
+			}
+			tr.Emit(map[string]any{"ev": "prepare", "rep": 2})
+			w := &stopWriter{left: cut, stopc: make(chan struct{})}
+			if cut == 0 {
+				close(w.stopc)
+				w.done = true
+			}
+			err = src.f.SaveSnapshot(ctx, w, w.stopc)
+			if err == nil {
+				// the save says the stream is complete: install it
+				dst := newRep(1, fsm.SnapshotRecoveryType(rng.Intn(2)))
+				if rerr := dst.f.RecoverFromSnapshot(bytes.NewReader(w.buf.Bytes()), make(chan struct{})); rerr == nil {
+					tr.Emit(map[string]any{"ev": "recover", "to": 1, "from": 2})
+					dst.index(tr)
+					dst.lookup(tr, fullRange())
+				}
+				// (an install that fails cleanly leaves the receiver as it was: covered by diskStop)
+				dst.close()
+			}
+			// the saver itself is untouched by a stopped save
+			src.index(tr)
+			src.lookup(tr, fullRange())
+			src.close()
+		}
+	}
+}
+
 // diskLazyRead : C08 reads that overlap an install. A lazy range sequence (what KV.IterateRange streams from) is
 // created before RecoverFromSnapshot and consumed after it. Runs in a CHILD process: a panic there is an observation.
 func diskLazyReadChild() int {
@@ -501,6 +564,7 @@ func init() {
 					diskLazyRead(tr)
 				} else {
 					diskStop(tr, rng)
+					diskStopSave(tr, rng)
 				}
 			} else if *mode == "bigbatch" {
 				runs = diskScenario(tr, bigScenario(rng), *stride)
